@@ -111,9 +111,57 @@ def lvalue(eng, node, st):
                     outs.append((s2, SubLV(p, k)))
         return outs
     if isinstance(node, ast.Call):
+        # x.getter() where every (closed-world) implementation is the one-line getter of the same declared
+        # field: the call denotes that field, so a container mutation through it is a mutation of the field
+        if isinstance(node.func, ast.Attribute) and not node.args and not node.keywords:
+            outs, ok = [], True
+            for s, o in eng.ev(node.func.value, st):
+                if isinstance(o, Raise):
+                    outs.append((s, o))
+                    continue
+                if o.ty.kind == "obj":
+                    o = eng.refine_to_ref(o, node.func.attr, s)
+                if o is None or o.ty.kind != "ref" or o.ty.nullable:
+                    ok = False
+                    break
+                hit = getter_field(eng, o.ty.cls, node.func.attr)
+                if hit is None:
+                    ok = False
+                    break
+                outs.append((s, AttrLV(SV(REF(hit[0]), o.t), hit[1])))
+            if ok and outs:
+                return outs
         # e.g. self.eventlist().clear(): receiver is a call result -> only refs make sense
         return [(s, v if isinstance(v, Raise) else ValueLV(v)) for s, v in eng.ev(node, st)]
     raise Unsupported("lvalue %s" % type(node).__name__)
+
+
+def getter_field(eng, static, name):
+    """(class, field) when ``name`` resolves, for every concrete subclass of ``static``, to a one-line getter
+    ``return self.<field>`` of one and the same declared field (abstract declarations ignored)."""
+    if static not in eng.table.classes:
+        return None
+    found = set()
+    for c in eng.table.subclasses(static):
+        f = eng.table.resolve(c, name)
+        if f is None:
+            return None
+        if f.is_abstract:
+            continue
+        if eng.reg.contracts.get(f.qual) is not None and not eng.reg.contracts[f.qual].inline:
+            return None
+        b = f.body
+        if not (len(b) == 1 and isinstance(b[0], ast.Return) and isinstance(b[0].value, ast.Attribute)
+                and isinstance(b[0].value.value, ast.Name) and b[0].value.value.id == "self"):
+            return None
+        fld = b[0].value.attr
+        if eng.field_decl(c, fld) is None:
+            return None
+        found.add((eng.field_key(c, fld), fld))
+    if len(found) != 1:
+        return None
+    key, fld = found.pop()
+    return key.split(".")[0], fld
 
 
 class ValueLV:
@@ -596,7 +644,68 @@ def _sb_allocated(eng, st, r):
     return mk_bool(z3.And(r.t > 0, r.t < eng.A0 + st.nalloc))
 
 
-SPEC_BUILTINS = {"allocated": _sb_allocated, "bval": _sb_bval, "isdict": _sb_isdict, "dlen": _sb_dlen, "dkeys": _sb_dkeys, "dhas": _sb_dhas, "dget": _sb_dget,
+def _sb_inset(eng, st, x, st_):
+    return mk_bool(z3.Select(st_.t, S.enc(eng.coerce(x, st_.ty.elem)[0])))
+
+
+def _sb_unchanged_except(eng, st, x, *names):
+    """every declared field of x (over the MRO of its static class) has its pre-state value, except the named ones"""
+    excl = {n.const for n in names}
+    old = eng.old_state
+    conj = []
+    seen = set()
+    for cname in eng.table.mro(x.ty.cls):
+        for fn, (ty, ghost) in eng.reg.fields.get(cname, {}).items():
+            if fn in excl or fn in seen:
+                continue
+            seen.add(fn)
+            key = "%s.%s" % (cname, fn)
+            cur = eng.heap_arr(st, key, ty)
+            prev = old.heap.get(key)
+            if prev is None:
+                continue
+            conj.append(z3.Select(cur, x.t) == z3.Select(prev, x.t))
+    return mk_bool(z3.And(*conj) if conj else z3.BoolVal(True))
+
+
+def _sb_heap_unchanged(eng, st, *excluded):
+    """no field of any object that existed in the pre-state has changed (except the named heap keys)"""
+    excl = {n.const for n in excluded}
+    old = eng.old_state
+    conj = []
+    r = z3.Int("hu_r")
+    for key, arr in st.heap.items():
+        base = old.heap.get(key)
+        if base is None or arr.eq(base) or key in excl:
+            continue
+        conj.append(z3.ForAll([r], z3.Implies(z3.And(0 < r, r < eng.A0), z3.Select(arr, r) == z3.Select(base, r))))
+    return mk_bool(z3.And(*conj) if conj else z3.BoolVal(True))
+
+
+def _sb_istuple(eng, st, x):
+    o = eng.to_obj(x)
+    kind = eng.reg.ufun("other_kind", z3.IntSort(), z3.IntSort())
+    return mk_bool(z3.And(PyObj.is_O_other(o), kind(PyObj.oid(o)) == 3))
+
+
+def _sb_tlen(eng, st, x):
+    o = eng.to_obj(x)
+    return SV(INT, eng.reg.ufun("other_len", z3.IntSort(), z3.IntSort())(PyObj.oid(o)))
+
+
+def _sb_titem(eng, st, x, i):
+    o = eng.to_obj(x)
+    item = eng.reg.ufun("other_item", z3.IntSort(), z3.IntSort(), PyObj)
+    return SV(OBJ, item(PyObj.oid(o), eng.coerce(i, INT)[0].t))
+
+
+def _sb_pub(eng, st, et, content, ts):
+    ty = TUP(REF("EventType"), OBJ, OBJ)
+    items = [eng.coerce(et, REF("EventType"))[0], SV(OBJ, eng.to_obj(content)), SV(OBJ, eng.to_obj(ts))]
+    return eng.pack(SV(ty, None, items=items))
+
+
+SPEC_BUILTINS = {"istuple": _sb_istuple, "tlen": _sb_tlen, "titem": _sb_titem, "heap_unchanged": _sb_heap_unchanged, "inset": _sb_inset, "unchanged_except": _sb_unchanged_except, "pub": _sb_pub, "allocated": _sb_allocated, "bval": _sb_bval, "isdict": _sb_isdict, "dlen": _sb_dlen, "dkeys": _sb_dkeys, "dhas": _sb_dhas, "dget": _sb_dget,
                  "isinst": _sb_isinst, "indexof": _sb_indexof, "mapeq": _sb_mapeq, "has": _sb_has, "get": _sb_get, "contains": _sb_contains, "nodup": _sb_nodup, "rm": _sb_rm,
                  "map_put": _sb_map_put, "map_del": _sb_map_del, "seq1": _sb_seq1, "asref": _sb_asref,
                  "subseq": _sb_subseq, "empty_like": _sb_empty_like, "map_empty": _sb_map_empty,
@@ -905,6 +1014,10 @@ def b_hasattr(eng, s, a, k, node):
             if fn:
                 return [(s, fn(eng, v))]
             return [(s, mk_bool(True))]
+    if v.ty.kind in ("obj", "ref") and isinstance(name.const, str):
+        fn = eng.reg.specfuns.get("hasattr_" + name.const)
+        if fn:
+            return [(s, fn(eng, v))]
     raise Unsupported("hasattr")
 
 
@@ -1010,7 +1123,8 @@ def call_attr(eng, node, fn, st):
 
 def lvalue_or_value(eng, node, st):
     try:
-        if isinstance(node, (ast.Name, ast.Attribute, ast.Subscript)):
+        if isinstance(node, (ast.Name, ast.Attribute, ast.Subscript)) or \
+                (isinstance(node, ast.Call) and isinstance(node.func, ast.Attribute) and not node.args and not node.keywords):
             if isinstance(node, ast.Name) and node.id not in st.env:
                 raise Unsupported("x")
             return lvalue(eng, node, st)
@@ -1078,6 +1192,15 @@ def method_call2(eng, lv, recv, name, args, kwargs, s, node):
         asseq = SV(SEQ(recv.ty.elem), recv.t)
         return eng.implicit(s, "AttributeError", z3.Not(has),
                             lambda s2: seq_method(eng, ValueLV(asseq), asseq, name, args, s2))
+    if k == "set":
+        if name == "add":
+            need_owned(eng, lv, s, "set.add")
+            v, c = eng.coerce(args[0], recv.ty.elem)
+            if c is not None:
+                eng.oblige("type.set-elem", "type", s, c)
+            lv.set(eng, s, SV(recv.ty, z3.Store(recv.t, S.enc(v), z3.BoolVal(True)), const=recv.const))
+            return [(s, mk_none())]
+        raise Unsupported("set.%s" % name)
     if k == "seq" or k == "emptylist":
         return seq_method(eng, lv, recv, name, args, s)
     if k == "map" or k == "emptydict":
@@ -1135,6 +1258,11 @@ def dispatch(eng, static, name, recv, s, cont):
                 fld = eng.field_key(c, b.value.attr)
             key = ("trivial", ast.dump(b), fld)
         groups.setdefault(key, []).append((c, f))
+    # an abstract method body is never the one that runs: user classes must override it, and within the
+    # closed world the overriding definitions of the table stand for them
+    concrete = {k: m for k, m in groups.items() if not m[0][1].is_abstract}
+    if concrete and len(concrete) < len(groups):
+        groups = concrete
     if len(groups) == 1:
         members = list(groups.values())[0]
         classes = sorted([c for c, _ in members], key=lambda c: len(eng.table.mro(c)))
@@ -1407,6 +1535,10 @@ def is_trivial(f):
 
 def call_function(eng, f, recv, args, kwargs, st, recv_static=None, via_super=False, exact=False):
     c = eng.reg.contracts.get(f.qual)
+    if f.name == "__init__" and eng.reg.variants:
+        on_self = recv is not None and "self" in st.env and st.env["self"].t is not None and recv.t is not None \
+            and recv.t.eq(st.env["self"].t)
+        c = eng.reg.contract_for(f.qual, eng.self_class if (on_self and eng.self_class) else recv_static)
     if eng.spec:
         return spec_method_call(eng, f, c, recv, args, kwargs, st)
     eng.callees.add(f.qual)
@@ -1561,6 +1693,8 @@ def apply_contract(eng, c, f, recv, args, kwargs, st):
         if orz != "unchanged":
             paths = c.modifies if orz == "any" else orz
             havoc_paths(eng, paths, env, s3)
+            limit_havoc(eng, c, pre, s3, spec_env, env)
+            keep_receiver(eng, c, recv, pre, s3)
             for cl in c.exc_ensures:
                 s3.assume(eng.spec_eval(cl, s3, old=pre, env=spec_env))
         if orz != "unchanged":
@@ -1573,6 +1707,8 @@ def apply_contract(eng, c, f, recv, args, kwargs, st):
     for n_ in neg:
         s2.assume(n_)
     havoc_paths(eng, c.modifies, env, s2)
+    limit_havoc(eng, c, pre, s2, spec_env, env)
+    keep_receiver(eng, c, recv, pre, s2)     # after: both branches of a conditional havoc agree on the receiver's kept fields
     if not c.pure:
         bump = S.fresh("nalloc_call", z3.IntSort())
         s2.assume(bump >= 0)
@@ -1600,6 +1736,65 @@ def apply_contract(eng, c, f, recv, args, kwargs, st):
     s2.notes.append("called %s" % c.qual)
     outs.append((s2, res if res is not None else mk_none()))
     return outs
+
+
+def limit_havoc(eng, c, pre, s_after, spec_env, env):
+    """havoc_only_if: when the condition is false in the pre-state only the contract's quiet_modifies paths
+    change on objects that existed before (the callee proves this: nohavoc.* obligations); objects allocated
+    by the callee are unreachable for the caller."""
+    if not c.havoc_only_if:
+        return
+    cond = z3.simplify(eng.spec_eval(c.havoc_only_if, pre, old=pre, env=spec_env))
+    changed = [k for k in s_after.heap if k in pre.heap and not s_after.heap[k].eq(pre.heap[k])]
+    if not changed:
+        return
+    decided = None
+    if z3.is_true(cond):
+        decided = True
+    elif z3.is_false(cond):
+        decided = False
+    else:
+        try:
+            if eng.prover.quick(pre.pc, z3.Not(cond)) == "proved":
+                decided = False
+        except Exception:
+            decided = None
+    if decided is True:
+        return
+    quiet = pre.fork()
+    if c.quiet_modifies:
+        havoc_paths(eng, c.quiet_modifies, env, quiet)
+        s_after.pc.extend(quiet.pc[len(pre.pc):])
+    for k in changed:
+        other = quiet.heap.get(k, pre.heap[k])
+        if decided is False:
+            s_after.heap[k] = other
+        else:
+            # a fresh array constant (heap arrays are used in quantifier patterns: no ite-terms in the heap)
+            nc = S.fresh("Hc_" + k, pre.heap[k].sort())
+            d = nc == z3.If(cond, s_after.heap[k], other)
+            from .prover import register_def
+            register_def(d, nc)
+            s_after.assume(d)
+            s_after.heap[k] = nc
+
+
+def keep_receiver(eng, c, recv, pre, s_after):
+    if not c.receiver_keeps or recv is None or recv.ty.kind != "ref":
+        return
+    cls, excluded, _note = c.receiver_keeps
+    rc = eng.self_class if ("self" in pre.env and pre.env["self"].t is not None and recv.t.eq(pre.env["self"].t) and eng.self_class) else recv.ty.cls
+    if not eng.table.is_subclass(rc, cls):
+        return
+    seen = set()
+    for cname in eng.table.mro(rc):
+        for fn, (ty, ghost) in eng.reg.fields.get(cname, {}).items():
+            if fn in excluded or fn in seen:
+                continue
+            seen.add(fn)
+            key = "%s.%s" % (cname, fn)
+            if key in s_after.heap and key in pre.heap and not s_after.heap[key].eq(pre.heap[key]):
+                s_after.heap[key] = z3.Store(s_after.heap[key], recv.t, z3.Select(pre.heap[key], recv.t))
 
 
 def apply_preserves(eng, c, caller_env, s_after, pre):
